@@ -173,7 +173,7 @@ func checkOffsetsAndLengths(p *Program, r *Result, isSink func(ssa.CallInstructi
 			n++
 			args := ci.Common().Args
 			checkSnapshot(p, r, ci.Parent(), args[2], "MessageIndexEntry.Offset", []string{"mcap.Writer.writeRecord"}, false, ci, isSink)
-			if !loadOfField(args[1], "Message", "LogTime") {
+			if !isMessageLogTime(p, args[1]) {
 				r.violated("C05.b", funcName(ci.Parent()), "MessageIndexEntry.Timestamp", p.pos(ci.Pos()), "the message index entry does not carry the message's log time")
 			}
 		}
